@@ -11,12 +11,14 @@ import common
 for name in sorted(os.listdir(os.path.join(HERE, "harness", "props"))):
     if name.startswith("c") and name.endswith(".py") and name[1:3].isdigit() and len(name) == 6:
         mod = importlib.import_module("props." + name[:-3])
-        if hasattr(mod, "translate"):
+        fns = [f for f in dir(mod) if f == "translate" or f.startswith("translate_")]
+        if fns:
             chk = common.Check(name[:-3].upper(), "quick", 0)
-            try:
-                mod.translate(chk)
-            except Exception as e:
-                print("translator failed for", name, e)
+            for fn in fns:
+                try:
+                    getattr(mod, fn)(chk)
+                except Exception as e:
+                    print("translator failed for", name, fn, e)
             for b in chk.broken:
                 print("WARNING", name, b["name"], b["detail"][:200])
 common.coq_makefile()
